@@ -74,6 +74,11 @@ CASES = [
     (GP + 'GraphProcessor.get_graph@imputation-tail', 'break', 'used_values[i] = self._get_inactive_value(des_vars[i])', 'used_values[i] = self._get_inactive_value(des_vars[0])'),
     (SUP + 'SupExistenceMapping.resolve', 'break', "            if src_node.str_context() in src_nodes:\n                sup_tgt_option_node = sup_option_node\n                break", "            if src_node.str_context() in src_nodes:\n                sup_tgt_option_node = sup_option_node"),
     (SUP + 'SupExistenceMapping.resolve', 'break', 'if src_node.str_context() in src_nodes:', 'if str(src_node) in src_nodes:'),
+    ('adsg_core/graph/traversal.py:get_deriving_in_edges', 'break', 'if edge[0] in removed_nodes or edge in removed_edges or (edge[0], edge[1]) in removed_edges:', 'if edge[0] in removed_nodes or (edge[0], edge[1]) in removed_edges:'),
+    ('adsg_core/graph/traversal.py:get_deriving_in_edges', 'break', 'deriving_edge_types = {EdgeType.DERIVES, edge_type}', 'deriving_edge_types = {edge_type}'),
+    ('adsg_core/graph/traversal.py:get_deriving_in_edges', 'break', 'if edge[0] in removed_nodes or edge in removed_edges', 'if edge[1] in removed_nodes or edge in removed_edges'),
+    ('adsg_core/graph/traversal.py:get_deriving_in_edges', 'keep', 'if edge[0] in removed_nodes or edge in removed_edges or (edge[0], edge[1]) in removed_edges:', 'if edge in removed_edges or edge[0] in removed_nodes or (edge[0], edge[1]) in removed_edges:'),
+    ('adsg_core/graph/incompatibility.py:get_confirmed_incompatibility_edges', 'break', 'if edge[0] in confirmed_nodes or edge[1] in confirmed_nodes:\n            edges.add', 'if edge[0] in confirmed_nodes and edge[1] in confirmed_nodes:\n            edges.add'),
     (SUP + 'SupSelChoiceOptionMapping.resolve', 'break', 'if len(src_selected_opt_nodes) != 1:', 'if len(src_selected_opt_nodes) > 1:'),
     (SUP + 'SupSelChoiceOptionMapping.resolve', 'break', 'sup_tgt_option_node = mapping_ctx[list(src_selected_opt_nodes)[0].str_context()]', 'sup_tgt_option_node = mapping_ctx[str(list(src_selected_opt_nodes)[0])]'),
     (SUP + 'SupSelChoiceOptionMapping.resolve', 'break', 'mapping_ctx = {node.str_context(): sup_node for node, sup_node in mapping.items() if node is not None}', 'mapping_ctx = {str(node): sup_node for node, sup_node in mapping.items() if node is not None}'),
